@@ -64,6 +64,17 @@ def chk_stack_scale(inp):
 
 def chk_brightest(inp):
     rng = numpy.random.default_rng(10)
+    # one stack handed to the centroider several times, as a caller would (no defensive copies): each answer is still what the
+    # frames give when processed alone (working dtypes float64 / int64, for which no conversion copy is needed, and float32)
+    for dt in ("float64", "int64", "float32"):
+        base = (rng.random((3, 6, 7)) * 1000 + 50).astype(dt)
+        held = base.copy()
+        for frac in (0.1, 0.5, 0.25):
+            full = CN.brightest_pixel(held, frac)
+            each = numpy.array([CN.brightest_pixel(f.copy(), frac) for f in base]).T
+            if not close(full, each):
+                return bad("brightest_pixel: a %s stack passed again (fraction %g, after earlier calls with the same array) differs from its frames processed alone" % (dt, frac),
+                           numpy.asarray(full).tolist(), each.tolist())
     for (B, H, W) in ((3, 6, 8), (4, 5, 5)):
         st = rng.random((B, H, W)) + 0.05
         for frac in (0.1, 0.3, 0.75):
